@@ -50,6 +50,8 @@ impl Scenario for Lifecycle {
     fn generate(&self, rng: &mut Rng, _tier: Tier, _run: u64) -> Value {
         let size = if rng.chance(self.window_pct) {
             SizeClass::Window
+        } else if self.prop == "C10" && rng.below(3000) == 0 {
+            SizeClass::Gigantic
         } else if self.prop == "C10" && rng.below(400) == 0 {
             SizeClass::LongRun
         } else if (self.prop == "C01" || self.prop == "C02") && rng.below(2500) == 0 {
@@ -57,7 +59,7 @@ impl Scenario for Lifecycle {
         } else {
             draw_size(rng, self.huge_pct)
         };
-        let ic = if size == SizeClass::ManyRegular { *rng.pick(&[2u8, 4, 2, 4, 1]) } else { draw_ic(rng, size == SizeClass::Huge || size == SizeClass::Window) };
+        let ic = if size == SizeClass::Gigantic { *rng.pick(&[1u8, 2, 4]) } else if size == SizeClass::ManyRegular { *rng.pick(&[2u8, 4, 2, 4, 1]) } else { draw_ic(rng, size == SizeClass::Huge || size == SizeClass::Window) };
         let a = draw_archive(rng, size, ic);
         let wface = Face::draw(rng);
         let rface = Face::draw(rng);
